@@ -149,7 +149,7 @@ Proof.
   - apply Same. exact He.
   - destruct (find_trial t (w_trials w)), (db_get t (w_db w)); apply Same; exact He.
   - destruct (find_trial t (w_trials w)) as [tr|]; [|auto].
-    destruct (c_es (w_cfg w) && t_is tr TCreated && negb (t_completed tr) && negb (t_deleting tr)); [|auto].
+    destruct (c_es (w_cfg w) && t_is tr TCreated && negb (t_completed tr) && negb (t_deleting tr) && match find_job t (w_jobs w) with Some _ => true | None => false end); [|auto].
     apply Same. cbn. destruct v, (db_get t (w_db w)); exact He.
   - destruct (i_dep (w_infra w)); apply Same; exact He.
   - apply Same; exact He.
